@@ -99,7 +99,17 @@ type c11Step struct {
 	Pacing string `json:"pacing"`
 }
 
+// c11Pacings: what happens between two changes. "hold" and "release" make the harness the owner of the
+// schedule: while the cache's (exported) mutex is held the watcher goroutine cannot handle any event, so the
+// events of the following changes pile up and are handled in one burst, against a later state of the
+// directories, once the mutex is released - the schedule a slow or descheduled watcher goroutine produces.
+var c11Pacings = []string{"none", "none", "yield", "1ms", "20ms", "query", "hold", "release", "release+settle"}
+
 func propC11(rec *stats.Rec, sc *scratch, exclude map[string]bool) func(t *rapid.T) {
+	return propC11Paced(rec, sc, exclude, c11Pacings)
+}
+
+func propC11Paced(rec *stats.Rec, sc *scratch, exclude map[string]bool, pacings []string) func(t *rapid.T) {
 	return func(t *rapid.T) {
 		root := sc.dir()
 		defer os.RemoveAll(root)
@@ -139,7 +149,17 @@ func propC11(rec *stats.Rec, sc *scratch, exclude map[string]bool) func(t *rapid
 		}
 		waitForInotify()
 		cache, _ := cdi.NewCache(cdi.WithSpecDirs(dirs...), cdi.WithAutoRefresh(true))
-		defer cache.Configure(cdi.WithAutoRefresh(false))
+		held := false
+		release := func() {
+			if held {
+				held = false
+				cache.Unlock()
+			}
+		}
+		defer func() {
+			release()
+			_ = cache.Configure(cdi.WithAutoRefresh(false))
+		}()
 		undecidedIfNoInotify(t, cache)
 
 		var history []c11Step
@@ -169,8 +189,25 @@ func propC11(rec *stats.Rec, sc *scratch, exclude map[string]bool) func(t *rapid
 		}
 		rel := func(p string) string { r, _ := filepath.Rel(root, p); return r }
 		record := func(t *rapid.T, op string) {
-			p := rapid.SampledFrom([]string{"none", "none", "yield", "1ms", "20ms", "query"}).Draw(t, "pacing")
+			p := rapid.SampledFrom(pacings).Draw(t, "pacing")
+			if held && p == "query" {
+				p = "release+query" // a query needs the mutex
+			}
 			switch p {
+			case "hold":
+				if !held {
+					cache.Lock()
+					held = true
+					labels["watcher-held-off"] = true
+				}
+			case "release":
+				release()
+			case "release+settle":
+				release()
+				time.Sleep(30 * time.Millisecond)
+			case "release+query":
+				release()
+				_ = cache.ListDevices()
 			case "yield":
 				runtime.Gosched()
 			case "1ms":
@@ -295,8 +332,13 @@ func propC11(rec *stats.Rec, sc *scratch, exclude map[string]bool) func(t *rapid
 			},
 			"queryOnly": func(t *rapid.T) { // always enabled: a state in which every directory is missing leaves only
 				// mkdirMissing, and rapid gives up on a step in which every drawn action skips
+				pace := "query"
+				if held {
+					pace = "release+query"
+					release()
+				}
 				_ = cache.ListDevices()
-				history = append(history, c11Step{"queryOnly", "query"})
+				history = append(history, c11Step{"queryOnly", pace})
 				labels["op:queryOnly"] = true
 			},
 			"mkdirMissing": func(t *rapid.T) {
@@ -326,6 +368,29 @@ func propC11(rec *stats.Rec, sc *scratch, exclude map[string]bool) func(t *rapid
 				_ = os.Rename(d, filepath.Join(root, fmt.Sprintf("away%d", awaySeq)))
 				exists[d] = false
 				record(t, fmt.Sprintf("renameDirAway %s", rel(d)))
+			},
+			"swapDirHeld": func(t *rapid.T) { // while the watcher is held off, the directory leaves and a prepared one takes its
+				// place: the events of the old directory are handled when the path refers to the new one already
+				d := pickDir(t)
+				if !held {
+					cache.Lock()
+					held = true
+					labels["watcher-held-off"] = true
+				}
+				awaySeq++
+				_ = os.Rename(d, filepath.Join(root, fmt.Sprintf("away%d", awaySeq)))
+				stage := filepath.Join(root, fmt.Sprintf("stage%d", awaySeq))
+				_ = os.MkdirAll(stage, 0o755)
+				var descs []string
+				for i, n := 0, rapid.IntRange(0, 2).Draw(t, "nFiles"); i < n; i++ {
+					data, desc := c11Content(t, fmt.Sprintf("sdh%d", i))
+					_ = os.WriteFile(filepath.Join(stage, names[i%len(names)]), data, 0o644)
+					descs = append(descs, desc)
+				}
+				_ = os.Rename(stage, d)
+				release()
+				time.Sleep(30 * time.Millisecond)
+				record(t, fmt.Sprintf("swapDirHeld %s %v", rel(d), descs))
 			},
 			"renameDirOnto": func(t *rapid.T) { // one configured directory is renamed to the path of another, missing one
 				var from, to []string
@@ -379,6 +444,7 @@ func propC11(rec *stats.Rec, sc *scratch, exclude map[string]bool) func(t *rapid
 		// the very first query happens before any change (the cache was populated at creation)
 		_ = cache.ListDevices()
 		t.Repeat(actions)
+		release()
 		ok, got, want, took := converge(cache, dirs, 10*time.Second)
 		if !ok {
 			// diagnosis: which inodes are watched, which inodes the configured paths have now, the directory-level errors
@@ -394,7 +460,7 @@ func propC11(rec *stats.Rec, sc *scratch, exclude map[string]bool) func(t *rapid
 		}
 		createOnly := false
 		for _, s := range history {
-			if strings.HasPrefix(s.Op, "moveIn") || strings.HasPrefix(s.Op, "linkIn") || strings.HasPrefix(s.Op, "createEmpty") || strings.HasPrefix(s.Op, "removeDir") || strings.HasPrefix(s.Op, "mkdirMissing") || strings.HasPrefix(s.Op, "renameDir") {
+			if strings.HasPrefix(s.Op, "moveIn") || strings.HasPrefix(s.Op, "linkIn") || strings.HasPrefix(s.Op, "createEmpty") || strings.HasPrefix(s.Op, "removeDir") || strings.HasPrefix(s.Op, "mkdirMissing") || strings.HasPrefix(s.Op, "renameDir") || strings.HasPrefix(s.Op, "swapDir") {
 				createOnly = true
 			}
 		}
@@ -419,6 +485,13 @@ func propC11(rec *stats.Rec, sc *scratch, exclude map[string]bool) func(t *rapid
 func TestC11DirChurn(t *testing.T) {
 	ex := map[string]bool{"createWrite": true, "rewriteInChunks": true, "replaceByRename": true, "linkIn": true, "renameAway": true, "renameInside": true, "remove": true}
 	rapid.Check(t, propC11(stats.For("C11", "dirchurn"), newScratch(t), ex))
+}
+
+// TestC11Sched: directory-level churn under harness-owned schedules only: every gap either holds the watcher
+// goroutine off, releases it, or queries (no wall-clock pacing at all).
+func TestC11Sched(t *testing.T) {
+	ex := map[string]bool{"createWrite": true, "rewriteInChunks": true, "replaceByRename": true, "linkIn": true, "renameAway": true, "renameInside": true, "remove": true}
+	rapid.Check(t, propC11Paced(stats.For("C11", "sched"), newScratch(t), ex, []string{"none", "none", "hold", "hold", "release", "release+settle", "release+settle", "query"}))
 }
 
 func TestC11Rapid(t *testing.T) {
